@@ -48,7 +48,10 @@ PLAN = {
         gen={"quick": [(P("two", 5, 3, (2, 3)), None, 6000), (P("three", 12, 6, (1, 2, 3, 4)), 1500, 3000)],
              "thorough": [(P("two", 5, 3, (2, 3)), None, None), (P("one", 6, 4, (1, 2)), None, None),
                           (P("three", 14, 7, (1, 2, 3, 4)), 10000, None), (P("four", 16, 8, (1, 2, 3, 4)), 10000, None)]},
-        neg=[(P("two", 7, 4, (2, 3)), "evict-head", ["InvServe"]), (P("two", 7, 4, (2, 3)), "no-evict", ["InvBound"])]),
+        neg=[(P("two", 7, 4, (2, 3)), "evict-head", ["InvServe"]), (P("two", 7, 4, (2, 3)), "no-evict", ["InvBound"])],
+        # "every pull returns exactly what an output with unlimited history would return", also when
+        # the retained entry lives in a file
+        also=("spill-transparent", "served")),
     "C10": dict(
         mc={"quick": [P("one", 9, 5, (2, 3)), P("masked", 7, 4, (2, 3))],
             "thorough": [P("one", 12, 7, (1, 2, 3)), P("two", 10, 5, (2, 3)), P("masked", 9, 5, (2, 3)), P("three", 9, 5, (2, 3))]},
